@@ -24,7 +24,7 @@ import (
 func init() {
 	hx.Register(&hx.Prop{
 		ID: "C02",
-		Rule: "exhaustive: every reference-capable position (top-level components of the nine kinds, path items, every nested child slot incl. the never-walked ones) × target location " +
+		Rule: "exhaustive: every reference-capable position (top-level components of the nine kinds, path items, every nested child slot) × target location " +
 			"(same document, external fragment in same/parent/sibling/child directory, whole file in another directory whose object holds a relative ref, untyped x- extension) × chain length 1..2 × path spellings " +
 			"(x.json, ./x.json, ../d/x.json, d/../x.json, absolute, doubled slash) × root directory depth × entry point (file, data+path, data, http URI); shapes: diamond, self and mutual cycles per kind, " +
 			"callback/path-item cycles, pointer escapes (~0, ~1, ~01 with decoy siblings), dangling (component, file, nil field), wrong kind, scalar target, slash-less fragment, pure $ref cycle, '#', " +
@@ -443,46 +443,49 @@ type c02Slot struct {
 	name   string
 	path   []string // "[]" wraps the child in a one-element array
 	child  string
-	walked bool
 }
 
+// every reference-capable child position of every kind (all of them are walked since cbb0d05; the last nine
+// are the positions that were not: DESIGN §7 #13)
 var c02Slots = []c02Slot{
-	{"schema", "properties", []string{"properties", "p"}, "schema", true},
-	{"schema", "items", []string{"items"}, "schema", true},
-	{"schema", "additionalProperties", []string{"additionalProperties"}, "schema", true},
-	{"schema", "not", []string{"not"}, "schema", true},
-	{"schema", "allOf", []string{"allOf", "[]"}, "schema", true},
-	{"schema", "anyOf", []string{"anyOf", "[]"}, "schema", true},
-	{"schema", "oneOf", []string{"oneOf", "[]"}, "schema", true},
-	{"header", "schema", []string{"schema"}, "schema", true},
-	{"parameter", "schema", []string{"schema"}, "schema", true},
-	{"parameter", "content", []string{"content", "application/json", "schema"}, "schema", true},
-	{"requestBody", "schema", []string{"content", "application/json", "schema"}, "schema", true},
-	{"requestBody", "example", []string{"content", "application/json", "examples", "e"}, "example", true},
-	{"response", "header", []string{"headers", "h"}, "header", true},
-	{"response", "schema", []string{"content", "application/json", "schema"}, "schema", true},
-	{"response", "example", []string{"content", "application/json", "examples", "e"}, "example", true},
-	{"response", "link", []string{"links", "l"}, "link", true},
-	{"callback", "pathItem", []string{"{$request.body#/v}"}, "pathItem", true},
-	{"pathItem", "parameter", []string{"parameters", "[]"}, "parameter", true},
-	{"pathItem", "opParameter", []string{"get", "parameters", "[]"}, "parameter", true},
-	{"pathItem", "requestBody", []string{"post", "requestBody"}, "requestBody", true},
-	{"pathItem", "response", []string{"get", "responses", "201"}, "response", true},
-	{"pathItem", "callback", []string{"get", "callbacks", "cb"}, "callback", true},
-	// positions no resolver visits (#13)
-	{"header", "example", []string{"examples", "e"}, "example", false},
-	{"header", "contentSchema", []string{"content", "application/json", "schema"}, "schema", false},
-	{"parameter", "example", []string{"examples", "e"}, "example", false},
-	{"requestBody", "encodingHeader", []string{"content", "application/json", "encoding", "f", "headers", "h"}, "header", false},
-	{"response", "encodingHeader", []string{"content", "application/json", "encoding", "f", "headers", "h"}, "header", false},
+	{"schema", "properties", []string{"properties", "p"}, "schema"},
+	{"schema", "items", []string{"items"}, "schema"},
+	{"schema", "additionalProperties", []string{"additionalProperties"}, "schema"},
+	{"schema", "not", []string{"not"}, "schema"},
+	{"schema", "allOf", []string{"allOf", "[]"}, "schema"},
+	{"schema", "anyOf", []string{"anyOf", "[]"}, "schema"},
+	{"schema", "oneOf", []string{"oneOf", "[]"}, "schema"},
+	{"header", "schema", []string{"schema"}, "schema"},
+	{"parameter", "schema", []string{"schema"}, "schema"},
+	{"parameter", "content", []string{"content", "application/json", "schema"}, "schema"},
+	{"requestBody", "schema", []string{"content", "application/json", "schema"}, "schema"},
+	{"requestBody", "example", []string{"content", "application/json", "examples", "e"}, "example"},
+	{"response", "header", []string{"headers", "h"}, "header"},
+	{"response", "schema", []string{"content", "application/json", "schema"}, "schema"},
+	{"response", "example", []string{"content", "application/json", "examples", "e"}, "example"},
+	{"response", "link", []string{"links", "l"}, "link"},
+	{"callback", "pathItem", []string{"{$request.body#/v}"}, "pathItem"},
+	{"pathItem", "parameter", []string{"parameters", "[]"}, "parameter"},
+	{"pathItem", "opParameter", []string{"get", "parameters", "[]"}, "parameter"},
+	{"pathItem", "requestBody", []string{"post", "requestBody"}, "requestBody"},
+	{"pathItem", "response", []string{"get", "responses", "201"}, "response"},
+	{"pathItem", "callback", []string{"get", "callbacks", "cb"}, "callback"},
+	// formerly unwalked
+	{"header", "example", []string{"examples", "e"}, "example"},
+	{"header", "contentSchema", []string{"content", "application/json", "schema"}, "schema"},
+	{"header", "contentExample", []string{"content", "application/json", "examples", "e"}, "example"},
+	{"header", "encodingHeader", []string{"content", "application/json", "encoding", "f", "headers", "h"}, "header"},
+	{"parameter", "example", []string{"examples", "e"}, "example"},
+	{"parameter", "contentExample", []string{"content", "application/json", "examples", "e"}, "example"},
+	{"parameter", "encodingHeader", []string{"content", "application/json", "encoding", "f", "headers", "h"}, "header"},
+	{"requestBody", "encodingHeader", []string{"content", "application/json", "encoding", "f", "headers", "h"}, "header"},
+	{"response", "encodingHeader", []string{"content", "application/json", "encoding", "f", "headers", "h"}, "header"},
 }
 
 func c02Set2(obj jm, slot c02Slot, child any) jm {
 	cur := obj
-	if slot.parent == "parameter" && slot.name == "content" {
-		delete(obj, "schema")
-	}
-	if slot.parent == "header" && slot.name == "contentSchema" {
+	if (slot.parent == "parameter" || slot.parent == "header") && slot.path[0] == "content" {
+		// the loader rejects a parameter that has both `schema` and `content`
 		delete(obj, "schema")
 	}
 	if slot.parent == "pathItem" && slot.path[0] == "post" {
@@ -720,7 +723,7 @@ func c02Exhaustive(ctx *hx.Ctx, emit func(hx.Case)) {
 					obj := c02Val(kind, "W@"+lc.target)
 					for si := range c02Slots {
 						s := c02Slots[si]
-						if s.parent == kind && s.walked {
+						if s.parent == kind {
 							side := path.Dir(lc.target) + "/side.json"
 							c02Put(l.file(side), s.child, c02TopName(s.child, "N"), c02Val(s.child, "N@"+side))
 							// decoy with the same name next to the referring document
@@ -782,12 +785,9 @@ func c02Shapes(emit func(hx.Case)) {
 		c02Put(l.file(root), kind, c02TopName(kind, "R2"), c02Ref("../c/y.json"+c02Ptr(kind, c02TopName(kind, "B")), "r2"))
 		emit(l.toCase())
 	}
-	// cycles through every walked slot whose child kind can reach the parent kind again
+	// cycles through every slot whose child kind can reach the parent kind again
 	for si := range c02Slots {
 		s := c02Slots[si]
-		if !s.walked {
-			continue
-		}
 		for _, ext := range []bool{false, true} {
 			// parent P holds (in slot s) a reference to child C; C (if it can) holds a reference back to P
 			back := c02BackSlot(s.child, s.parent)
@@ -963,10 +963,10 @@ func c02Shapes(emit func(hx.Case)) {
 	}
 }
 
-// a walked slot of kind `from` whose child kind is `to`
+// a slot of kind `from` whose child kind is `to`
 func c02BackSlot(from, to string) *c02Slot {
 	for i := range c02Slots {
-		if c02Slots[i].parent == from && c02Slots[i].child == to && c02Slots[i].walked {
+		if c02Slots[i].parent == from && c02Slots[i].child == to {
 			return &c02Slots[i]
 		}
 	}
@@ -1067,19 +1067,11 @@ func c02Random(r *hx.Rng) hx.Case {
 				continue
 			}
 			p := 35
-			if !s.walked {
-				p = 4
-			}
-			if kind == "parameter" && s.name == "content" {
-				p = 10
+			if s.path[0] == "content" && (kind == "parameter" || kind == "header") {
+				p = 10 // removes the inline schema
 			}
 			if !r.Chance(p) {
 				continue
-			}
-			if (kind == "parameter" && s.name == "content") || (kind == "header" && s.name == "contentSchema") {
-				if _, has := v["examples"]; has {
-					continue
-				}
 			}
 			var child any
 			if depth >= 2 || r.Chance(60) {
